@@ -126,10 +126,50 @@ def run_case(case: dict[str, Any]) -> Outcome:
     out.nontrivial = nontrivial(spec)
     kinds = sorted({m["kind"] for m in spec["methods"]})
     out.label(*[f"kind={k}" for k in kinds])
+    if "ending" in case:
+        out.label(f"ending={case['ending']}")
     http = [HTTP_CFGS[i % len(HTTP_CFGS)] for i in case["http_idx"]]
     extra = [{"t": "subprocess"}] if case.get("subprocess") else []
     run_spec(spec, SOCKET_CFGS + extra + http, out)
     return out
+
+
+def _producer_tail_cases() -> Any:
+    """Producer streams whose script is k plain data ticks followed by a chosen ending, always read to the end.
+
+    The general program family reaches "data, then an error/finish on a later tick" in only ~2 % of programs, and
+    whether those ticks share one HTTP response depends on max_response_bytes — so this family fixes the shape and
+    runs every cap (None / 1 / 700 / 1 MiB) with a drawn codec.
+    """
+    from hypothesis import strategies as st
+
+    @st.composite
+    def build(draw: st.DrawFn) -> dict[str, Any]:
+        spec = draw(programs.program_specs(kinds=("producer",), max_methods=2, max_calls=3, min_steps=1, early_exit=False))
+        m = spec["methods"][0]
+        m["init"]["action"] = {"op": "ok"}
+        k = draw(st.integers(1, 4))
+        steps = list(m["steps"])
+        while len(steps) < k + 1:
+            steps.append({"logs": draw(programs._logs(2)), "action": {"op": "finish"}})
+        for s in steps[:k]:
+            if s["action"]["op"] != "emit":
+                s["action"] = {"op": "emit", "rows": draw(programs._rows(m["out_cols"])), "meta": None}
+            s["action"].pop("finish", None)
+        ending = draw(st.sampled_from(["raise", "raise", "finish", "emit_finish", "as_is"]))
+        if ending == "raise":
+            steps[k]["action"] = draw(programs._raise_action)
+        elif ending == "finish":
+            steps[k]["action"] = {"op": "finish"}
+        elif ending == "emit_finish":
+            steps[k]["action"] = {"op": "emit", "rows": draw(programs._rows(m["out_cols"])), "meta": None, "finish": True}
+        m["steps"] = steps
+        first = {"mid": 0, "args": {p["name"]: draw(programs._values(p["type"])) for p in m["params"]}, "take": None, "end": "exhaust"}
+        spec["calls"] = [first, *spec["calls"][:2]]
+        comps = draw(st.lists(st.integers(0, 2), min_size=4, max_size=4))
+        return {"spec": spec, "http_idx": [ci * 3 + comps[ci] for ci in range(4)], "ending": ending}
+
+    return build()
 
 
 def main(chk: Check) -> None:
@@ -144,6 +184,7 @@ def main(chk: Check) -> None:
         }
     )
     chk.explore("programs", strat, run_case, quick=400, thorough=3200)
+    chk.explore("producer_tail", _producer_tail_cases(), run_case, quick=120, thorough=1600)
     # a real worker process (python startup ≈ 0.5 s per program): a few in quick, more in thorough
     sub = st.fixed_dictionaries(
         {"spec": programs.program_specs(), "http_idx": st.just([0]), "subprocess": st.just(True)}
